@@ -2523,10 +2523,46 @@ int coefficient_divides(const lp_polynomial_context_t* ctx, const coefficient_t*
   TRACE("coefficient", "coefficient_divides()\n");
   STAT_INCR(coefficient, divides)
 
-  coefficient_t R;
+  // Everything divides 0, and 0 divides only 0
+  if (coefficient_is_zero(ctx, C2)) {
+    return 1;
+  }
+  if (coefficient_is_zero(ctx, C1)) {
+    return 0;
+  }
+
+  int type_cmp = coefficient_cmp_type(ctx, C1, C2);
+
+  if (type_cmp > 0) {
+    // C1 has a main variable that C2 (non-zero) does not have
+    return 0;
+  }
+
+  if (type_cmp < 0) {
+    // C1 is free of the main variable of C2, it has to divide every coefficient
+    size_t i;
+    for (i = 0; i < SIZE(C2); ++ i) {
+      if (!coefficient_divides(ctx, C1, COEFF(C2, i))) {
+        return 0;
+      }
+    }
+    return 1;
+  }
+
+  if (C1->type == COEFFICIENT_NUMERIC) {
+    return integer_divides(ctx->K, &C1->value.num, &C2->value.num) != 0;
+  }
+
+  // Same main variable: P*C2 = Q*C1 + R with P = lc(C1)^k. Then C1 divides C2
+  // iff R = 0 and the quotient Q/P is a polynomial, i.e. P divides Q.
+  coefficient_t P, Q, R;
+  coefficient_construct(ctx, &P);
+  coefficient_construct(ctx, &Q);
   coefficient_construct(ctx, &R);
-  coefficient_prem(ctx, &R, C2, C1);
-  int divides = coefficient_is_zero(ctx, &R);
+  coefficient_reduce(ctx, C2, C1, &P, &Q, &R, REMAINDERING_PSEUDO_DENSE);
+  int divides = coefficient_is_zero(ctx, &R) && coefficient_divides(ctx, &P, &Q);
+  coefficient_destruct(&P);
+  coefficient_destruct(&Q);
   coefficient_destruct(&R);
 
   return divides;
